@@ -603,4 +603,54 @@ theorem pack_list_eq_concat' (f : String) (fs : List String) (e : Char) (codes :
     | error err => simp [Except.toOption]
     | ok b1 => cases packTokens r v2 <;> simp [Except.toOption]
 
+
+theorem splitTop_plain (cs : List Char) (h : ∀ c ∈ cs, c ≠ ',' ∧ c ≠ '(' ∧ c ≠ ')') (cur : List Char) :
+    splitTop cs 0 cur = [cur.reverse ++ cs] := by
+  induction cs generalizing cur with
+  | nil => simp [splitTop]
+  | cons c cs ih =>
+    obtain ⟨h1, h2, h3⟩ := h c List.mem_cons_self
+    simp only [splitTop, h1, h2, h3, false_and, if_false]
+    rw [ih (fun x hx => h x (List.mem_cons_of_mem _ hx))]
+    simp
+
+theorem factorOf_star (ds tok : List Char) (hds : ∀ d ∈ ds, d.isDigit = true) (hne : ds ≠ []) (htok : tok ≠ []) :
+    factorOf (ds ++ '*' :: tok) = some (ds.foldl (fun acc d => acc * 10 + (d.toNat - '0'.toNat)) 0, tok) := by
+  have htw : (ds ++ '*' :: tok).takeWhile Char.isDigit = ds := by
+    induction ds with
+    | nil => simp
+    | cons d ds ih =>
+      simp only [List.cons_append, List.takeWhile, hds d List.mem_cons_self]
+      by_cases hn : ds = []
+      · subst hn; simp
+      · rw [ih (fun x hx => hds x (List.mem_cons_of_mem _ hx)) hn]
+  unfold factorOf
+  simp only [htw, List.drop_left']
+  have : ds.isEmpty = false := by cases ds <;> simp_all
+  have : tok.isEmpty = false := by cases tok <;> simp_all
+  simp [*]
+
+/-- `N*tok` for a plain token is the token `N` times, in order (so that the code lists repeat as hBhB). -/
+theorem expandFmtAux_factor' (fuel : Nat) (ds tok : List Char) (hds : ∀ d ∈ ds, d.isDigit = true) (hne : ds ≠ [])
+    (htok : tok ≠ []) (hplain : ∀ c ∈ tok, c ≠ ',' ∧ c ≠ '(' ∧ c ≠ ')') :
+    expandFmtAux (fuel + 1) (ds ++ '*' :: tok)
+      = some (List.replicate (ds.foldl (fun acc d => acc * 10 + (d.toNat - '0'.toNat)) 0) (String.ofList tok)) := by
+  have hall : ∀ c ∈ ds ++ '*' :: tok, c ≠ ',' ∧ c ≠ '(' ∧ c ≠ ')' := by
+    intro c hc
+    rcases List.mem_append.mp hc with h | h
+    · have := hds c h
+      refine ⟨?_, ?_, ?_⟩ <;> (intro hc'; subst hc'; revert this; decide)
+    · cases h with
+      | head => decide
+      | tail _ h => exact hplain c h
+  have hhead : tok.head? ≠ some '(' := by
+    cases tok with
+    | nil => simp
+    | cons c cs => simp; exact (hplain c List.mem_cons_self).2.1
+  have hnonempty : (ds ++ '*' :: tok).isEmpty = false := by cases ds <;> simp
+  simp only [expandFmtAux, splitTop_plain _ hall, List.reverse_nil, List.nil_append, List.mapM_cons, List.mapM_nil,
+    hnonempty, factorOf_star ds tok hds hne htok]
+  simp [hhead]
+
+
 end BM.C18
